@@ -74,8 +74,9 @@ package basestore
 //@   props C01 C05 C16
 //@   flag nilcalls
 //@   requires wf(b)
-//@   ensures result == nil ==> synced(b)
-//@   modifies idxState(b.index)
+//@   ensures result == nil ==> synced(b) && idxFails(b.index) == old(idxFails(b.index))
+//@   ensures result != nil ==> idxFails(b.index) == old(idxFails(b.index)) + 1
+//@   modifies idxState(b.index), idxFails(b.index)
 
 // AddOperation (local write): append -> persist the new local head -> re-derive the view -> acknowledge.
 //  * success: exactly one new entry, carrying the operation's bytes, is in the log; the cache names it as the
@@ -102,14 +103,14 @@ package basestore
 //@   ensures result1 != nil && logLen(L) == old(logLen(L)) ==> ents(L) == old(ents(L)) && valsOf(L) == old(valsOf(L)) && dsMap(C) == old(dsMap(C)) && idxState(b.index) == old(idxState(b.index))
 //@   ensures statusProgress(b.replicationStatus) <= statusMax(b.replicationStatus)
 //@   ensures result1 == nil ==> (opHasKey(result) == (ptr(op, "operation.operation").Key != nil)) && (opHasKey(result) ==> opKey(result) == deref(ptr(op, "operation.operation").Key)) && opKind(result) == ptr(op, "operation.operation").Op && opValue(result) == ptr(op, "operation.operation").Value && opOK(result)
-//@   modifies ents(b.oplog), valsOf(b.oplog), logLen(b.oplog), headsOf(b.oplog), dsMap(b.cache), dsHas(b.cache), idxState(b.index), statusMax(b.replicationStatus), statusProgress(b.replicationStatus), evCount(b.emitters.evtWrite), evLast(b.emitters.evtWrite), "G:sent:Iface"
+//@   modifies ents(b.oplog), valsOf(b.oplog), logLen(b.oplog), headsOf(b.oplog), dsMap(b.cache), dsHas(b.cache), idxState(b.index), idxFails(b.index), statusMax(b.replicationStatus), statusProgress(b.replicationStatus), evCount(b.emitters.evtWrite), evLast(b.emitters.evtWrite), "G:sent:Iface"
 
 // replicationLoadComplete (a batch of fetched logs): every log of the batch is offered to Join whatever
 // happens to the others (C10); only logs fetched by content address for this database and access controller
 // are joined (C04); nothing already merged is ever removed (C08); the replicated event is emitted at most
 // once, and only after the view was re-derived and the merged heads were persisted (C01 C05 C16).
 //@ func (*BaseStore).replicationLoadComplete
-//@   props C01 C04 C05 C08 C10 C16
+//@   props C01 C04 C05 C06 C07 C08 C10 C16
 //@   flag nilcalls
 //@   requires wf(b) && b.emitters.evtReplicated != nil
 //@   requires statusProgress(b.replicationStatus) <= statusMax(b.replicationStatus)
@@ -122,7 +123,8 @@ package basestore
 //@   ghost RH := dsKey("_remoteHeads")
 //@   loop 1 noexit
 //@   loop 1 frame ents(L), valsOf(L), logLen(L), headsOf(L), joinCalls(L)
-//@   loop 1 invariant oplog == L && joinCalls(L) == J0 + $i && 0 <= joined && joined <= $i
+//@   loop 1 invariant oplog == L && joinCalls(L) == J0 + $i
+//@   loop 1 invariant? joined >= 0 && (joined == 0 ==> valsOf(L) == old(valsOf(L)) && idxState(b.index) == old(idxState(b.index)))
 //@   loop 1 invariant forall x Iface :: old(ents(L)[x]) ==> ents(L)[x]
 //@   loop 1 invariant evCount(R) == N0 && statusProgress(b.replicationStatus) <= statusMax(b.replicationStatus)
 //@   assert @ before call oplog.Join#1: prov(log) != 0 && logID(log) == logID(oplog) && acOf(log) == acOf(oplog)
@@ -131,14 +133,15 @@ package basestore
 //@   ensures forall x Iface :: old(ents(L)[x]) ==> ents(L)[x]
 //@   ensures evCount(R) == N0 || evCount(R) == N0 + 1
 //@   ensures evCount(R) == N0 + 1 ==> synced(b) && dsHas(C)[RH]
+//@   ensures (old(synced(b)) ==> synced(b)) || idxFails(b.index) > old(idxFails(b.index))
 //@   ensures statusProgress(b.replicationStatus) <= statusMax(b.replicationStatus)
-//@   modifies ents(b.oplog), valsOf(b.oplog), logLen(b.oplog), headsOf(b.oplog), joinCalls(b.oplog), dsMap(b.cache), dsHas(b.cache), idxState(b.index), statusMax(b.replicationStatus), statusProgress(b.replicationStatus), evCount(b.emitters.evtReplicated), evLast(b.emitters.evtReplicated)
+//@   modifies ents(b.oplog), valsOf(b.oplog), logLen(b.oplog), headsOf(b.oplog), joinCalls(b.oplog), dsMap(b.cache), dsHas(b.cache), idxState(b.index), idxFails(b.index), statusMax(b.replicationStatus), statusProgress(b.replicationStatus), evCount(b.emitters.evtReplicated), evLast(b.emitters.evtReplicated)
 
 // Load: the effective limit is the argument when positive, else MaxHistory when positive, else unlimited
 // (-1); every Join meets the dependency's size precondition for every limit (C15); the loop over the cached
 // heads never stops early; on success with cached heads the view is re-derived before the ready event.
 //@ func (*BaseStore).Load
-//@   props C15 C05 C01 C16
+//@   props C15 C05 C01 C16 C04 C03
 //@   flag nilcalls
 //@   flag inline-go$2
 //@   requires wf(b) && b.emitters.evtLoad != nil && b.emitters.evtReady != nil && b.emitters.evtLoadProgress != nil
@@ -152,6 +155,7 @@ package basestore
 //@   loop 2 invariant amount == lim && statusProgress(b.replicationStatus) <= statusMax(b.replicationStatus) && b.oplog == L
 //@   loop 2 invariant forall j Int :: 0 <= j && j < len(heads) ==> heads[j] != nil && heads[j].Clock != nil
 //@   assert @ before call ipfslog.NewFromEntryHash#1: amount == lim
+//@   assert @ before call oplog.Join#1: logID(boxptr(l, "berty.tech/go-ipfs-log.IPFSLog")) == logID(oplog) && acOf(boxptr(l, "berty.tech/go-ipfs-log.IPFSLog")) == b.access && prov(boxptr(l, "berty.tech/go-ipfs-log.IPFSLog")) != 0
 //@   assert @ before call b.emitters.evtReady.Emit#1: len(heads) > 0 ==> synced(b)
 //@   ensures result == nil && len(heads) > 0 ==> synced(b)
 
@@ -180,7 +184,10 @@ package basestore
 //@   assert @ before call b.directChannel.Send#1: payload == encMsg(b.id, heads)
 //@   ensures result == nil ==> dcSent(D) == S0 + 1
 //@   ensures dcSent(D) == S0 || dcSent(D) == S0 + 1
-//@   modifies dcSent(b.directChannel), dcLast(b.directChannel), "C:Slice_Int", "C:Slice_Str", "C:Slice_V_cid_Cid"
+//@   modifies dcSent(b.directChannel), dcLast(b.directChannel), "C:Slice_Int", "C:Slice_Str", "C:Slice_V_cid_Cid", "C:Str"
+//@   modifies "F:operation.operation.Key", "F:operation.operation.Op", "F:operation.operation.Value", "F:operation.operation.Docs", "F:operation.opDoc.Key", "F:operation.opDoc.Value"
+//@   modifies "F:basestore.storeSnapshot.ID", "F:basestore.storeSnapshot.Heads", "F:basestore.storeSnapshot.Size", "F:basestore.storeSnapshot.Type"
+//@   modifies "F:entry.Entry.Payload", "F:entry.Entry.LogID", "F:entry.Entry.Next", "F:entry.Entry.Refs", "F:entry.Entry.V", "F:entry.Entry.Key", "F:entry.Entry.Sig", "F:entry.Entry.Identity", "F:entry.Entry.Hash", "F:entry.Entry.Clock", "F:entry.Entry.AdditionalData"
 
 // The store main loop (C09 C19 C12): consumes the events of this store's own replicator only, keeps
 // progress <= max across every status update, hands fetched batches to replicationLoadComplete, and only
